@@ -9,7 +9,8 @@ A case is [S, rs, mode, clockrate, events]:
                                  int(time.time() * clockrate) == arrival
           [1, ssrc, ntp, now]    RTCP SR handled at wall clock now * 2^-20 s
           [2, now]               one iteration of the RTCRtpReceiver._run_rtcp loop at that time
-          [3]                    read packets_expected / packets_lost / jitter / packets_received
+          [3]                    read packets_expected / packets_lost / jitter / packets_received (mode 0:
+                                 the last three through RTCRtpReceiver.getStats())
 The model sees [S, rs, events].
 """
 import fractions
@@ -69,6 +70,9 @@ class _Transport:
     async def _send_rtp(self, data):
         self.sent.append(data)
 
+    def _get_stats(self):
+        return {}
+
 
 def _drive(coro):
     """Run a coroutine that must not suspend (atomic-handler assumption of the model)."""
@@ -105,14 +109,20 @@ class C18(Check):
         "2^-20 s (exact as floats). Several SSRCs in one receiver report, getStats() and the float rounding of "
         "real wall-clock values are not modelled.")
     rule = (
-        "random arrival histories of 1-120 events (one long multi-cycle history per 50 cases): start sequence "
-        "anywhere (half of them within 300 of the wrap), steps forward 1-3 / bursts of loss / jumps up to +-32768, "
-        "duplicates, reordering; RTP timestamps starting within a few steps of 2^32, repeated timestamps (frames), "
-        "random timestamps; arrival clock with noise, jumps of +-2^31..2^40 and negative values; SR packets for the "
-        "stream and for other SSRCs with 64-bit NTP times; reports and probes at random instants incl. before the "
-        "first packet and back to back; dlsr delays <=0, small, around the 65536 s limit; 3% of cases with an SSRC "
-        "outside 32 bits (pack must raise: Crash path of the model). distinct by (case, outputs); non-trivial = a "
-        "report was sent after loss, reordering or a sequence wrap")
+        "random arrival histories of 1-120 events (one of 600-2500 events per 50 cases, one of >131000 in-order "
+        "packets per 400 cases so that the extended highest sequence number passes 2^32 and cumulative loss passes "
+        "the 24-bit clamp): start sequence anywhere (half of them within 300 of the wrap), per-case rates of loss "
+        "bursts, duplicates/late packets, far reordering and jumps up to +-32768 incl. the exact half distances; "
+        "RTP timestamps starting within a few steps of 2^32, repeated timestamps (frames), random timestamps; "
+        "arrival clock with noise, jumps of +-2^31..2^40 and negative values; SR packets for the stream and for "
+        "other SSRCs with 64-bit NTP times; reports and probes at random instants incl. before the first packet "
+        "and back to back; dlsr delays <=0, small, around the 65536 s limit; 3-5% of cases with an SSRC outside "
+        "32 bits (pack must raise: Crash path of the model); both driving modes (through "
+        "RTCRtpReceiver._handle_rtp_packet / StreamStatistics directly), clock rates 1, 8000, 48000, 90000. "
+        "Oracle: RFC 3550 A.1/A.3/A.8 recomputed independently (own unwrapping, transit-based 32-bit jitter), "
+        "wire bytes decoded with struct, plus for 2/3 of the cases a second implementation run with shifted "
+        "sequence-number and timestamp origins (C17). distinct by (case, outputs); non-trivial = a report was "
+        "sent after a sequence wrap or with non-zero cumulative loss")
 
     # ------------------------------------------------------------ generator
     def gen_huge(self, rng):
@@ -360,7 +370,15 @@ class C18(Check):
                         outs.append([3, []])
                     else:
                         try:
-                            outs.append([3, [st.packets_expected, st.packets_lost, st.jitter, st.packets_received]])
+                            if mode == 0:
+                                # observe through the public API: RTCRtpReceiver.getStats()
+                                rep = _drive(receiver.getStats())["inbound-rtp_" + str(id(receiver))]
+                                assert rep.ssrc == S
+                                outs.append([3, [st.packets_expected, rep.packetsLost, rep.jitter,
+                                                 rep.packetsReceived]])
+                            else:
+                                outs.append([3, [st.packets_expected, st.packets_lost, st.jitter,
+                                                 st.packets_received]])
                         except Exception:
                             outs.append([3, -2])
             if crashed:
